@@ -353,7 +353,11 @@ def body_solver(inp, A, mode):
     if mode == "direct":
         r = hx.attempt(fnnls.fnnls_cholesky, Am.copy(), b.copy())
     else:
-        settings = SettingsInversion(use_positive_only_solver=True, positive_only_uses_p_initial=(mode == "warm"))
+        if mode.endswith("_pos"):
+            # the documented positional form SettingsInversion(use_w_tilde, use_positive_only_solver, positive_only_uses_p_initial)
+            settings = SettingsInversion(True, True, mode.startswith("warm"))
+        else:
+            settings = SettingsInversion(use_positive_only_solver=True, positive_only_uses_p_initial=(mode == "warm"))
         r = hx.attempt(inversion_util.reconstruction_positive_only_from, data_vector=b.copy(),
                        curvature_reg_matrix=Am.copy(), settings=settings)
     if isinstance(r, hx.Raised):
@@ -837,7 +841,8 @@ def _unscale(x, c):
     return x / c
 
 
-def body_inversion(inp, region, sym, objs, mesh, w_tilde, positive, warm, edge, history, zero_pixels=None, scale_exp=0):
+def body_inversion(inp, region, sym, objs, mesh, w_tilde, positive, warm, edge, history, zero_pixels=None, scale_exp=0,
+                   positional=False):
     aa, dataset, lin_objs, shapes, Bs, Fref, Href, Dref = _setup_inversion(inp, region, sym, objs, mesh, scale_exp)
     c = 2.0 ** -scale_exp
     if scale_exp:
@@ -846,7 +851,14 @@ def body_inversion(inp, region, sym, objs, mesh, w_tilde, positive, warm, edge, 
         Dref = _unscale(Dref, c)
     Aref = Fref + Href
     n = Aref.shape[0]
-    settings = aa.SettingsInversion(use_w_tilde=w_tilde, use_positive_only_solver=positive,
+    if positional:
+        # first three settings passed positionally (use_w_tilde, use_positive_only_solver, positive_only_uses_p_initial)
+        settings = aa.SettingsInversion(w_tilde, positive, warm, force_edge_pixels_to_zeros=edge,
+                                        no_regularization_add_to_curvature_diag_value=DIAG_ADD,
+                                        force_edge_image_pixels_to_zeros=bool(zero_pixels),
+                                        image_pixels_source_zero=list(zero_pixels) if zero_pixels else None)
+    else:
+      settings = aa.SettingsInversion(use_w_tilde=w_tilde, use_positive_only_solver=positive,
                                     positive_only_uses_p_initial=warm, force_edge_pixels_to_zeros=edge,
                                     no_regularization_add_to_curvature_diag_value=DIAG_ADD,
                                     force_edge_image_pixels_to_zeros=bool(zero_pixels),
@@ -1045,6 +1057,7 @@ MATS2 = [
     [[1.25, 0.75], [0.75, 2.5]],
     [[1.0, -1.5], [-1.5, 3.0]],          # strongly anti-correlated
 ]
+MAT2_EXTREME = [[1.0, 0.9999999962747097], [0.9999999962747097, 1.0]]
 MATS3 = [
     [[16.0, 14.0, 9.0], [14.0, 32.0, 19.0], [9.0, 19.0, 18.0]],      # correlated columns (Z^T Z of a small integer Z)
     [[3.0, -1.0, 0.0], [-1.0, 3.0, -1.0], [0.0, -1.0, 3.0]],         # curvature + constant regularisation of a 1x3 mesh
@@ -1072,7 +1085,8 @@ BOUNDS = {
              "rectangular 3x5 mesh with force_edge_pixels_to_zeros (3 free parameters; mapping+cold, w_tilde+warm, Preloads history, "
              "force_edge_image_pixels_to_zeros); mapper preceded / surrounded by function lists ([func, mapper], [func, mapper, func], 3x3 mesh) "
              "with edge forcing and with image_pixels_source_zero, both formalisms; function lists with an operated_mapping_matrix_override "
-             "(dyadic, different from the convolved mapping matrix) alone, with a second list and with a mapper, both solvers; small-unit data (image 2^-24 times an O(1) image with 2 symbolic values; mapper with forced edges, [func, mapper], single function list): "
+             "(dyadic, different from the convolved mapping matrix) alone, with a second list and with a mapper, both solvers; SettingsInversion constructed positionally (solver level and class level); one n=2 matrix with correlation 1-2^-28 "
+             "(condition number 5e8) cold / warm / direct; small-unit data (image 2^-24 times an O(1) image with 2 symbolic values; mapper with forced edges, [func, mapper], single function list): "
              "outputs, KKT tolerances and the decision margin in units of the image scale. Strongly correlated systems: 3 SPD matrices of n=5 (nearly collinear columns, condition "
              "numbers 1.5e3-7e3, entries on a 1/64 grid) with the right-hand side restricted to affine families b = b0 + sum t_k e_i, "
              "t_k symbolic in [-4,4], through a noise-like b0: all 5 coordinate segments (cold; 3 warm) per matrix and the plane (e_0,e_3) "
@@ -1144,6 +1158,12 @@ def cases(tier):
         for mode in ("cold", "warm"):
             out.append(("case_solver", {"A": A, "mode": mode}))
     out.append(("case_solver", {"A": MATS2[1], "mode": "direct"}))
+    # settings constructed positionally (solver flags different from each other)
+    out.append(("case_solver", {"A": MATS2[2], "mode": "cold_pos"}))
+    out.append(("case_solver", {"A": MATS3[0], "mode": "warm_pos"}))
+    # extremely correlated columns (correlation 1 - 2^-28, condition number 5e8, relative Schur complement 7.5e-9)
+    for mode in ("cold", "warm", "direct"):
+        out.append(("case_solver", {"A": MAT2_EXTREME, "mode": mode}))
     for A in (MATS3 if thorough else MATS3[:2]):
         for mode in ("cold", "warm"):
             out.append(("case_solver", {"A": A, "mode": mode}))
@@ -1195,6 +1215,13 @@ def cases(tier):
     out.append(("case_inversion", _inv((3, 3), [3, 4], "rect", (3, 5), True, True, True, True)))
     out.append(("case_inversion", _inv((3, 3), [3, 4], "rect", (3, 5), False, True, False, True, history=2)))
     out.append(("case_inversion", _inv((3, 3), [3, 4], "rect", (3, 5), True, True, True, True, zero_pixels=[5])))
+    # positional SettingsInversion at class level (positive-only without warm start; unconstrained)
+    pos_cfg = _inv((3, 3), [3, 4], "rect", (3, 5), False, True, False, True)
+    pos_cfg["positional"] = True
+    out.append(("case_inversion", pos_cfg))
+    pos_cfg2 = _inv((3, 3), [3, 4], "func+rect", (3, 3), True, True, False, True)
+    pos_cfg2["positional"] = True
+    out.append(("case_inversion", pos_cfg2))
     # mapper preceded / surrounded by function lists (its parameters start at an offset): both forcing mechanisms
     out.append(("case_inversion", _inv((3, 3), [3, 4], "func+rect", (3, 3), False, True, False, True)))
     out.append(("case_inversion", _inv((3, 3), [3, 4], "func+rect", (3, 3), True, True, True, True, zero_pixels=[4])))
